@@ -126,6 +126,11 @@ def block(draw, name, nrexcl, syntax, names=None, max_atoms=5, resname=None, non
             inter.append(draw(interaction("bonds", [a, b], guard_ok=False)))
             adj[a].append(b)
             adj[b].append(a)
+    plain_bonds = [it for it in inter if it["sec"] == "bonds"]
+    if plain_bonds and draw(st.integers(0, 5)) == 0:
+        # the same two atoms in two sections: a bond and, for rigid runs, a constraint on it
+        twin = draw(st.sampled_from(plain_bonds))
+        inter.append(draw(interaction("constraints", list(twin["atoms"]), guard_ok=False)))
     used = set()
     for length, sec in ((3, "angles"), (4, "dihedrals")):
         paths = _paths(adj, length)
